@@ -211,6 +211,27 @@ def run(ctx):
         inputs.append((b, rng.choice([2, 3, 4, 8, 9]), rng.choice([0, 1, 5, 64, 500]), rng.random() < 0.3, rng.random() < 0.3, 'valid program, random options'))
         for _ in range(6):
             inputs.append((mutate(rng, b), rng.choice([2, 4]), 64, rng.random() < 0.2, rng.random() < 0.3, 'mutated program'))
+    import C14
+    zgrid = [0, 0, 0, 1, -1, 2, 255, 256, 65536, -32768]
+    old = C14.GRID
+    C14.GRID = zgrid
+    try:
+        for _ in range(120 * N):
+            t = C14.gen_tree(rng, rng.choice([1, 2, 3]), rng.choice(['int', 'int', 'bool', 'byte']))
+            lits = []
+            e = C14.render(t, lits, 'const')
+            form = rng.choice(['write(%s);', 'int x = %s is int;', 'if (%s) { write(1); }', 'int[] a = [%s is int, 1]; write(a[0]);', 'while (%s) { break; }', 'return; write(%s);',
+                               'int v[%s is int]; write(v.length);', 'write("abc"[%s is int]);', 'const int K = %s is int; write(K %% K); write(1 / K);'])
+            pre = rng.choice(['', 'const int Z = 0;\n', 'const byte B = \'\\x00\';\n'])
+            if pre.startswith('const int Z') and rng.random() < 0.7:
+                e = e.replace('0', 'Z', 1) if '0' in e else e
+            inputs.append((pre + 'empty @is_you() { ' + (form % e) + ' }\n', 2, 64, False, rng.random() < 0.2, 'constant expression in a position'))
+    finally:
+        C14.GRID = old
+    for src in ['empty @is_you() { write(17 %% 0); }', 'empty @is_you() { write(17 / 0); }', 'const int Z = 0;\nempty @is_you() { write(5 %% Z); write(5 / Z); }',
+                'empty @is_you() { int x = \'a\' %% 0; }', 'empty @is_you() { write(1 / (1 - 1)); }', 'empty @is_you() { write(7 %% (2 - 2) is byte); }',
+                'int g = 1 / 0;\nempty @is_you() { }', 'const int A = 4 %% 0;\nempty @is_you() { write(A); }']:
+        inputs.append((src.replace('%%', '%') + '\n', 2, 64, False, False, 'constant expression in a position'))
     for w, st in [(1, 64), (0, 64), (2, -5), (2, 0), (2, 10 ** 6), (2, 16000), (8, 10 ** 15), (9, 64), (2, 16378), (2, 16379)]:
         inputs.append((bases[0], w, st, False, False, 'option boundary w=%s stack=%s' % (w, st)))
     for d in (5, 20, 40):
